@@ -1067,12 +1067,26 @@ def E4_cml(repo, clause):
     # id map enumerates the same id list
     dm = [n for n in fn.own_nodes() if isinstance(n, ast.Assign) and isinstance(n.value, ast.DictComp)]
     ok = False
+    map_recognised = False
     if len(dm) == 1 and names:
         dc = dm[0].value
         g = dc.generators[0]
-        ok = isinstance(g.iter, ast.Call) and call_name(g.iter) == "enumerate" and isinstance(g.iter.args[0], ast.Name) and g.iter.args[0].id == names[0] \
+        map_recognised = isinstance(g.iter, ast.Call) and call_name(g.iter) == "enumerate" and isinstance(g.target, ast.Tuple) and len(g.target.elts) == 2
+        ok = map_recognised and isinstance(g.iter.args[0], ast.Name) and g.iter.args[0].id == names[0] \
             and isinstance(dc.key, ast.Name) and dc.key.id == g.target.elts[1].id and isinstance(dc.value, ast.Name) and dc.value.id == g.target.elts[0].id
-    obs.append(Ob("E4", clause, fn, dm[0] if dm else fn.node, ok, "id -> index map enumerates the id list in document order (key = id, value = position)", slot="id-map"))
+    if not dm and names:
+        # dict(zip(ids, range(len(ids)))) / dict(zip(ids, itertools.count())): the same map
+        for n in fn.own_nodes():
+            if isinstance(n, ast.Assign) and len(n.targets) == 1 and isinstance(n.targets[0], ast.Name) and isinstance(n.value, ast.Call) and call_name(n.value) == "dict" \
+                    and len(n.value.args) == 1 and isinstance(n.value.args[0], ast.Call) and call_name(n.value.args[0]) == "zip" and len(n.value.args[0].args) == 2:
+                ka, va = n.value.args[0].args
+                dm = [n]
+                map_recognised = True
+                counts = (isinstance(va, ast.Call) and call_name(va) == "range" and len(va.args) == 1 and isinstance(va.args[0], ast.Call) and call_name(va.args[0]) == "len"
+                          and ast.unparse(va.args[0].args[0]) == ast.unparse(ka)) or (isinstance(va, ast.Call) and call_name(va) == "count" and not va.args)
+                ok = isinstance(ka, ast.Name) and ka.id == names[0] and bool(counts)
+    obs.append(Ob("E4", clause, fn, dm[0] if dm else fn.node, ok, "id -> index map enumerates the id list in document order (key = id, value = position)", slot="id-map",
+                  undecided=not map_recognised))
     # bonds resolved through the map
     mname = dm[0].targets[0].id if dm else None
     bl = [n for n in fn.own_nodes() if isinstance(n, ast.Assign) and isinstance(n.targets[0], ast.Name) and n.targets[0].id == bondsname]
@@ -1088,7 +1102,7 @@ def E4_cml(repo, clause):
             if helper is not None and any(isinstance(y, ast.Call) and call_name(y) in ("int", "float", "isdigit", "isnumeric", "isdecimal") for y in ast.walk(helper.node)):
                 parsed = True
     obs.append(Ob("E4", clause, fn, bl[0] if bl else fn.node, ok, "both bond endpoints are resolved through the id map (ids are never parsed as numbers)", slot="bond-resolution",
-                  positive=parsed))
+                  positive=parsed, undecided=not parsed and mname is None))
     ar = [n for n in fn.own_nodes() if isinstance(n, ast.Subscript) and const_value(n.slice) == "atomRefs2"]
     ok = len(ar) == 1 and isinstance(fn.parents.get(fn.parents.get(ar[0])), ast.Call) and call_name(fn.parents.get(fn.parents.get(ar[0]))) == "split"
     obs.append(Ob("E4", clause, fn, ar[0] if ar else fn.node, ok, "atomRefs2 is split on whitespace into the two references", slot="atomrefs-split"))
